@@ -58,30 +58,54 @@ def gen_param(ctx, f):
     return None
 
 
+def _is_gen_cmp(e, param):
+    """``X.generation != <param>`` (either order) -> name X, else None."""
+    if not (isinstance(e, ast.Compare) and len(e.ops) == 1 and isinstance(
+            e.ops[0], ast.NotEq)):
+        return None
+    a, b = e.left, e.comparators[0]
+    for x, y in ((a, b), (b, a)):
+        if isinstance(x, ast.Attribute) and x.attr == 'generation' and \
+                isinstance(x.value, ast.Name) and isinstance(
+                    y, ast.Name) and y.id == param:
+            return x.value.id
+    return None
+
+
+def _is_null_test(e, param):
+    return isinstance(e, ast.Compare) and len(e.ops) == 1 and isinstance(
+        e.ops[0], ast.IsNot) and src(e.left) == param and src(
+            e.comparators[0]) == 'None'
+
+
+def _conflict_raises(ctx, f):
+    """[(raise stmt, literals)] for the 409 concurrent-update raises of f;
+    literals = the branch literals under which the raise runs, whatever the
+    spelling (nested ifs, merged ``and``, negated tests)."""
+    out = []
+    for r in own_nodes(f.node):
+        if isinstance(r, ast.Raise) and c05.is_conflict_raise(ctx, f, r)[0]:
+            out.append((r, C.conds(r, f.node)))
+    return out
+
+
 def _gen_compare_ifs(ctx, f, param=None):
-    """If statements ``X.generation != <param>`` raising the 409."""
+    """(top-level if statement, X, other literals) for each 409 raise that
+    runs exactly when ``X.generation != <param>`` and the other literals
+    hold; the raise must be the only statement of its branch."""
     out = []
     if param is None:
         param = gen_param(ctx, f)
-    for n in own_nodes(f.node):
-        if not (isinstance(n, ast.If) and isinstance(n.test, ast.Compare)
-                and len(n.test.ops) == 1 and isinstance(
-                    n.test.ops[0], ast.NotEq)):
+    for r, ls in _conflict_raises(ctx, f):
+        xs = [(_is_gen_cmp(e, param), e) for e, pol in ls if pol]
+        xs = [(x, e) for x, e in xs if x]
+        if len(xs) != 1:
             continue
-        a, b = n.test.left, n.test.comparators[0]
-        pair = None
-        for x, y in ((a, b), (b, a)):
-            if isinstance(x, ast.Attribute) and x.attr == 'generation' and \
-                    isinstance(x.value, ast.Name) and isinstance(
-                        y, ast.Name) and y.id == param:
-                pair = (x.value.id, y.id)
-        if pair is None:
+        blk = getattr(r, '_parent', None)
+        if not (isinstance(blk, ast.If) and blk.body == [r]):
             continue
-        rs = [s for s in n.body if isinstance(s, ast.Raise)]
-        if len(rs) == 1 and len(n.body) == 1 and not n.orelse:
-            ok, _ = c05.is_conflict_raise(ctx, f, rs[0])
-            if ok:
-                out.append((n, pair[0]))
+        rest = [(e, pol) for e, pol in ls if e is not xs[0][1]]
+        out.append((C.outer_if(r, f.node), xs[0][0], rest))
     return out
 
 
@@ -97,12 +121,10 @@ def _flag_name(ctx, f, minv):
     return None
 
 
-def _under_flag(node, f, flag):
-    """node is (only) guarded by ``if <flag>:`` body branches."""
-    ifs = C.guarding_ifs(node, f.node)
-    return len(ifs) >= 1 and all(
-        br == 'body' and isinstance(i.test, ast.Name) and i.test.id == flag
-        for i, br in ifs), ifs
+def _only_flag(rest, flag):
+    """The remaining literals are exactly the positive version flag."""
+    return len(rest) == 1 and rest[0][1] and isinstance(
+        rest[0][0], ast.Name) and rest[0][0].id == flag
 
 
 def r62(ctx, R):
@@ -126,10 +148,9 @@ def r62(ctx, R):
         var = st.targets[0].id if isinstance(st, ast.Assign) and isinstance(
             st.targets[0], ast.Name) else None
         via = set()
-        for cmp_if, x in cmps:
-            ok_f, ifs = _under_flag(cmp_if, f, flag)
-            if x == var and ok_f and len(ifs) == 1:
-                via.add(ifs[0][0])
+        for top_if, x, rest in cmps:
+            if x == var and _only_flag(rest, flag):
+                via.add(top_if)
         ok = bool(via) and g.must_pass(st, cfgmod.EXIT, via,
                                        normal_only=True)
         R.ob('R6.2', 'ensure_consumer:loaded-consumer-compared', ok,
@@ -150,18 +171,15 @@ def r62(ctx, R):
     for cr in creates:
         cst = C.stmt_of(cr)
         nulls = []
-        for n in own_nodes(f.node):
-            if isinstance(n, ast.If) and isinstance(n.test, ast.Compare) \
-                    and len(n.test.ops) == 1 and isinstance(
-                        n.test.ops[0], ast.IsNot) and src(
-                            n.test.left) == gen_param(ctx, f) and src(
-                                n.test.comparators[0]) == 'None':
-                rs = [s for s in n.body if isinstance(s, ast.Raise)]
-                if len(rs) == 1 and len(n.body) == 1 and not n.orelse and \
-                        c05.is_conflict_raise(ctx, f, rs[0])[0]:
-                    ok_f, ifs = _under_flag(n, f, flag)
-                    if ok_f and len(ifs) == 1:
-                        nulls.append(ifs[0][0])
+        gp = gen_param(ctx, f)
+        for r, ls in _conflict_raises(ctx, f):
+            blk = getattr(r, '_parent', None)
+            if not (isinstance(blk, ast.If) and blk.body == [r]):
+                continue
+            nt = [e for e, pol in ls if pol and _is_null_test(e, gp)]
+            rest = [(e, pol) for e, pol in ls if not (nt and e is nt[0])]
+            if len(nt) == 1 and _only_flag(rest, flag):
+                nulls.append(C.outer_if(r, f.node))
         ok = bool(nulls) and all(g.dominates(x, cst) for x in nulls[:1])
         R.ob('R6.2', 'ensure_consumer:not-found-requires-null', ok,
              'creating the consumer is dominated by "if <1.28 flag>: if '
@@ -214,17 +232,14 @@ def r62(ctx, R):
                         tgt.elts[0], ast.Name):
                     var = tgt.elts[0].id
                 via2 = set()
-                for cmp_if, x in cmps:
-                    if x != var or not g.dominates(cst, cmp_if):
+                for top_if, x, rest in cmps:
+                    if x != var or not g.dominates(cst, top_if):
                         continue
-                    ifs = C.guarding_ifs(cmp_if, f.node)
                     # allowed guards: the flag and/or "not created"
-                    okg = all(br == 'body' for _i, br in ifs) and any(
-                        isinstance(i.test, ast.Name) and i.test.id == flag
-                        or (isinstance(i.test, ast.BoolOp) and flag in
-                            C.names_in(i.test)) for i, _b in ifs)
-                    if okg and ifs:
-                        via2.add(ifs[-1][0])
+                    okg = any(pol and isinstance(e, ast.Name)
+                              and e.id == flag for e, pol in rest)
+                    if okg:
+                        via2.add(top_if)
                 if via2 and g.must_pass(cst, cfgmod.EXIT, via2,
                                         normal_only=True):
                     outer = True
